@@ -471,6 +471,11 @@ func boundFacts(m *Matcher, p Pred, holds bool) []Atom {
 		}
 	case "eq":
 		if !holds {
+			for _, pr := range [][2]ssa.Value{{p.X, p.Y}, {p.Y, p.X}} {
+				if isConstInt(intRootNoVar(pr[1]), 0) && isUnsigned(pr[0]) {
+					out = append(out, Atom("v:lbc:"+canon(pr[0])+":1"))
+				}
+			}
 			// len(y) != 0  =>  len(y) >= 1
 			for _, pr := range [][2]ssa.Value{{p.X, p.Y}, {p.Y, p.X}} {
 				if l := lenOf(m, intRootNoVar(pr[0])); l != nil && isConstInt(intRootNoVar(pr[1]), 0) {
@@ -556,6 +561,16 @@ func boundFactsLE(m *Matcher, a, b ssa.Value, strict bool, name func(ssa.Value) 
 	if ca, ok := isConst(a); ok {
 		if _, bConst := isConst(b); !bConst && (ca >= 0 || (ca == -1 && strict)) {
 			out = append(out, "v:lb0:"+name(b))
+		}
+		// c (<|<=) x  =>  x >= c (+1 if strict): constant lower bounds
+		if _, bConst := isConst(b); !bConst && ca >= 0 {
+			lb := ca
+			if strict {
+				lb++
+			}
+			for k := int64(1); k <= lb && k <= 64; k++ {
+				out = append(out, Atom("v:lbc:"+name(b)+":"+itoa(int(k))))
+			}
 		}
 	}
 	// x (<|<=) y with y itself bounded is not tracked (no transitivity)
